@@ -90,6 +90,9 @@ func (e *Encoder) Bytes() ([]byte, error) {
 	if e.mode == modeInitial {
 		e.appendDefaultMetadata()
 	}
+	// Drawing ops are buffered until the run ends; include a pending run so
+	// that a path that is still open is not silently cut short.
+	e.flushDrawOps()
 	return []byte(e.buf), nil
 }
 
